@@ -4,6 +4,9 @@
 use super::schedule;
 use crate::{crypto::awslc::open, packet::secret_control};
 use s2n_quic_core::varint::VarInt;
+#[cfg(all(test, aws_s2n_quic_verif_loom))]
+use ::loom::sync::atomic::{AtomicU64, Ordering};
+#[cfg(not(all(test, aws_s2n_quic_verif_loom)))]
 use std::sync::atomic::{AtomicU64, Ordering};
 
 type StatelessReset = [u8; secret_control::TAG_LEN];
